@@ -70,6 +70,34 @@ Theorem c07_one_spawn_per_message : forall (aok : ck -> bool) (acts : list act) 
 Proof. exact one_spawn_per_message. Qed.
 Print Assumptions c07_one_spawn_per_message.
 
+(* "each message posted produces exactly one run_spawned frame" when the CLIENT HANGS UP: hyper/axum drop the handler future
+   of a connection that went away while it is suspended.  thread_post_message has one suspension point (the lock of the
+   router's session map); `post_message_hung po … dropped` = the handler with that point placed as `po` says, dropped there
+   or not.  With the point BEFORE the message append (server.rs today; re-read by the extractor on every run: gen_post_order,
+   obligations gen_post_ok / gen_post_safe) a message that reached the thread has its run_spawned frame, dropped or not … *)
+Theorem c07_hung_up_post_message_has_run : forall (po : post_order) (g : cfg) (aok : ck -> bool) (mid sid : N) (inp : input) (dropped : bool),
+  post_order_safe po = true -> aok (CRunSpawned sid mid) = true ->
+  count_ck (is_spawn_of mid) (post_message_hung po g aok mid sid inp dropped)
+  = count_ck (is_message_of mid) (post_message_hung po g aok mid sid inp dropped).
+Proof. exact post_hung_message_has_run. Qed.
+Print Assumptions c07_hung_up_post_message_has_run.
+
+(* … indeed a dropped request is no activity at all and an undropped one is post_message, so every theorem above covers
+   stores whose clients hang up (as built: at the order read from the source) … *)
+Theorem c07_hung_up_post_as_built : forall (g : cfg) (aok : ck -> bool) (mid sid : N) (inp : input) (dropped : bool),
+  post_message_hung gen_post_order g aok mid sid inp dropped = if dropped then [] else post_message g aok mid sid inp.
+Proof. exact (fun g aok mid sid inp dropped => post_hung_safe gen_post_order g aok mid sid inp dropped gen_post_safe). Qed.
+Print Assumptions c07_hung_up_post_as_built.
+
+(* … REFUTED for the order before the fix (append message; lock; append run_spawned; spawn): the request dropped at the
+   lock leaves a message on the thread that never gets a run.  Replayed on the real code: corpus/C07/post_client_hangs_up.json *)
+Theorem c07_hung_up_post_unfixed_refuted :
+  exists g aok mid sid inp,
+    count_ck (is_message_of mid) (post_message_hung PoAppendFirst g aok mid sid inp true) = 1%nat
+    /\ count_ck (is_spawn_of mid) (post_message_hung PoAppendFirst g aok mid sid inp true) = 0%nat.
+Proof. exact (ex_intro _ g_stub_cfg (ex_intro _ all_ok (ex_intro _ 7 (ex_intro _ 1 (ex_intro _ (IPrompt true []) post_hung_unfixed_orphan))))). Qed.
+Print Assumptions c07_hung_up_post_unfixed_refuted.
+
 (* every spawned run has exactly one run_ended frame — under AppendOk for that frame *)
 Theorem c07_one_end_per_spawn : forall (aok : ck -> bool) (acts : list act) (l : list ev) (g : cfg) (mid sid : N) (inp : input),
   WfActs acts -> Interleave (map (act_events aok) acts) l -> In (APost g mid sid inp) acts ->
